@@ -55,5 +55,6 @@ void co() { hookpoint(6); L->add(({ "co", id })); }
 
 void raw_move(object dest) { move_object(dest); if (GONE) battery(); }
 void raw_living(string n) { enable_commands(); set_living_name(n); }
+void raw_hb() { set_heart_beat(1); }
 void raw_timers() { set_heart_beat(1); call_out("co", 1); }
 int raw_command() { int r = command("v"); if (GONE) battery(); return r; }
